@@ -277,6 +277,7 @@ type Config struct {
 	IgnoreUntil bool
 	Cleanup     bool
 	Combined    bool // cleanup.Combine of two handlers, one per group of dependents
+	IgnoreWhile bool // WithIgnoreTeardownWhile("X") instead of WithIgnoreTeardownUntil(): the same meaning while X is the only foreign finalizer
 	Concurrency uint
 }
 
@@ -289,6 +290,7 @@ var Configs = []Config{
 	{Name: "Q", Q: true, Fin: true, IgnoreUntil: true, Concurrency: 1},
 	{Name: "CL", Cleanup: true},
 	{Name: "CL", Cleanup: true, Combined: true},
+	{Name: "Q", Q: true, Fin: true, IgnoreUntil: true, IgnoreWhile: true, Concurrency: 2},
 }
 
 type gateT struct {
@@ -412,7 +414,10 @@ func runBehaviour(t *testing.T, tr *vh.Trace, tid string, cfg Config, beh []Cmd)
 			}))
 		} else if cfg.Q {
 			opts := []qtransform.ControllerOption{qtransform.WithConcurrency(cfg.Concurrency)}
-			if cfg.IgnoreUntil {
+			switch {
+			case cfg.IgnoreWhile:
+				opts = append(opts, qtransform.WithIgnoreTeardownWhile("X"))
+			case cfg.IgnoreUntil:
 				opts = append(opts, qtransform.WithIgnoreTeardownUntil())
 			}
 
